@@ -623,6 +623,37 @@ func c09Produce(c *Ctx) {
 				c09Plan(r, &plan, mk(bigIx(dp[0], dp[1]), "big-index-bucket", false, false), c09DefaultRow, []int{e})
 			}
 		}
+		// hostile (record width, bucket length) pairs around the bucket reader's 1 MiB chunk, with little or no
+		// data behind them: stand-alone and as the index of a CARv2
+		if a == 0 {
+			mib := uint64(1 << 20)
+			for _, width := range []uint64{mib - 1, mib, mib + 1, 2 * mib, 1<<25 - 1, 1 << 25} {
+				for _, dlen := range []uint64{mib + 1, width, 2 * width, 3*mib + 5} {
+					if dlen <= mib {
+						continue
+					}
+					for _, present := range []int{0, 50} {
+						for _, codec := range []byte{0x80, 0x81} {
+							ix := []byte{codec, 0x08}
+							ix = append(ix, c09LE(4, 1)...)
+							if codec == 0x81 {
+								ix = append(ix, c09LE(8, 0x12)...)
+								ix = append(ix, c09LE(4, 1)...)
+							}
+							ix = append(ix, c09LE(4, width)...)
+							ix = append(ix, c09LE(8, dlen)...)
+							ix = append(ix, r.Bytes(present)...)
+							c09Plan(r, &plan, mk(ix, "index-width-around-chunk", false, false), c09DefaultRow, []int{c09EIdxRead})
+							if idxOff > 0 && present == 50 && codec == 0x81 && dlen == 2*width {
+								emb := append(append([]byte(nil), v2file[:idxOff]...), ix...)
+								c09Plan(r, &plan, mk(emb, "index-width-around-chunk-in-v2", true, false), c09DefaultRow,
+									[]int{c09EReader, c09ELoadIndex, c09ERobs, c09EStorage})
+							}
+						}
+					}
+				}
+			}
+		}
 		// byte corruptions anywhere
 		for t := 0; t < corrupt; t++ {
 			src, v2 := b.payload, false
